@@ -670,3 +670,17 @@ def check_C16(tier, seed, rest):
            "rule": "generate() and strip_attributes() for every corpus definition on every thread of every process, tail-call and state-machine generators; one event per (definition, generator, process, thread) with digests of the output text, "
                    "the captured final graph and the stripped enum; GenTrace.tla accepts the shuffled event trace iff every key has a single digest; distinct = (definition, generator) keys"}
     finish("C16", tier, seed, "exploration", cov, r["findings"], t0, ["hash seeds are those RandomState draws per thread/process; no seed is forced", "digest = two 64-bit FNV-1a passes + length"])
+
+
+def check_C13(tier, seed, rest):
+    t0 = time.time()
+    from cbrun import cb_run
+    r = cb_run(tier, seed, ALL_CFGS)
+    v = [{"key": "%s:cb:%s" % (f["def"], f["input"]), "what": "%s input=%s: %s (cfg %s)" % (f["def"], f["input"], f["why"], f["cfg"]),
+          "definition": f["src"], "expected": f["expected"], "got": f["got"]} for f in r["findings"]]
+    cov = {"states": r["tlc"]["distinct"], "transitions": r["tlc"]["states"], "traces_validated_against_impl": r["runs"], "samples": r["samples"],
+           "behaviours": r["behaviours"], "configurations": r["cfgs"], "definitions": r["defs"], "max_input_chars": r["maxlen"],
+           "rule": "Callbacks.tla: 8 definitions attaching every callback return type of the documented table (unit: (), bool, Skip, Result<Skip,E>, Filter<()>; value: T, Option, Result, Filter, FilterResult; "
+                   "any-token: Self, Result<Self,E>, Filter<Self>, FilterResult<Self,E>; skip callbacks: (), Skip, Result<(),E>, Result<Skip,E>; bump inside a callback; error callback), decisions = len % 4; "
+                   "every input up to max_input_chars characters; expected items and expected callback invocation list replayed on 4 builds; SkipTransparent checked by TLC on the twin pair"}
+    finish("C13", tier, seed, "model_checking", cov, v, t0, ["callback decisions depend on the match length only", "reference lexer as in C01"])
